@@ -230,6 +230,34 @@ class Repo:
                     self.modules[name] = Module(name, path, rel, is_pkg)
                 except SyntaxError as e:
                     raise AnalysisError("cannot parse %s: %s" % (rel, e))
+        self._link_inheritance()
+
+    def _link_inheritance(self):
+        """Plain single inheritance between classes of the package: a subclass sees the methods and class attributes of its
+        bases that it does not override (own_methods keeps what the class itself defines)."""
+        done = set()
+
+        def link(c, depth=0):
+            if id(c) in done or depth > 8:
+                return
+            done.add(id(c))
+            c.own_methods = dict(c.methods)
+            c.base_classes = []
+            for b in c.bases:
+                try:
+                    r = self.resolve(c.module, b)
+                except Exception:
+                    r = None
+                if isinstance(r, ClassInfo) and r is not c:
+                    link(r, depth + 1)
+                    c.base_classes.append(r)
+                    for k, v in r.methods.items():
+                        c.methods.setdefault(k, v)
+                    for k, v in r.class_attrs.items():
+                        c.class_attrs.setdefault(k, v)
+        for m in list(self.modules.values()):
+            for c in m.classes.values():
+                link(c)
 
     # -- statistics -----------------------------------------------------
     def source_modules(self):
@@ -240,7 +268,7 @@ class Repo:
         for m in self.modules.values():
             out.extend(m.functions.values())
             for c in m.classes.values():
-                out.extend(c.methods.values())
+                out.extend(getattr(c, "own_methods", c.methods).values())
         return out
 
     def all_classes(self) -> List[ClassInfo]:
